@@ -242,6 +242,15 @@ def shard(ctx, n, sub, depth):
     for i in range(n):
         g = wf.Gen(rnd, max_depth=depth, fan=3, err_budget=rnd.choice([0, 0, 1, 2]))
         ast = g.program()
+        if i % 6 == 5:
+            # the same call once inside a no-provenance region and once outside, the outside one becoming ready while
+            # the inside one may still be in flight (and the other way round)
+            v = rnd.randint(0, 5)
+            nm = rnd.choice(["inc", "neg", "inc2"])
+            inside = ["noprov", ["call", nm, [["val", v]], {}, {}]]
+            outside = ["call", nm, [["call", "ident", [["call", "ident", [["val", v]], {}, {}]], {}, {}]], {}, {}]
+            ast = ["cont", "list", [inside, outside, ast] if rnd.random() < 0.5 else [outside, inside, ast]]
+            ctx.count("noprov_twin_programs")
         if rnd.random() < 0.25:
             ast = ["apply_tags", ast, [["tk", "tv"]], [["jk", rnd.randint(0, 3)]], [["ek", "e%d" % i]]]
         try:
